@@ -276,4 +276,35 @@ def St.appendDependenceN (s : St) (lhs : Nat) (ts : List (Nat × Int)) : Except 
 /-- several `set_gradient` calls in a row -/
 def seedAll (s : St) (seeds : List (Nat × Int)) : St := seeds.foldl (fun s p => (s.seed p.1 p.2).1) s
 
+/-! ### array forms (pointer and count) of the variable lists and of seeding / reading gradients -/
+
+/-- `Stack::independent(const A* x, n)` (Stack.h): `x[i].push_gradient_indices(independent_index_)` for i = 0..n-1 -/
+def St.independentN (s : St) (idxs : List Nat) : St := { s with indep := s.indep ++ idxs }
+
+/-- `Stack::dependent(const A* x, n)` -/
+def St.dependentN (s : St) (idxs : List Nat) : St := { s with dep := s.dep ++ idxs }
+
+/-- free function `set_gradients(Active* a, n, data)` (Active.h): `a[i].set_gradient(data[i])` in order; the first element
+    that raises ends the loop, the elements before it stay seeded (and the initialisation survives) -/
+def St.seedN (s : St) : List (Nat × Int) → St × Option Exc
+  | [] => (s, none)
+  | p :: rest => match s.seed p.1 p.2 with
+    | (s', none) => s'.seedN rest
+    | (s', some e) => (s', some e)
+
+/-- free function `get_gradients(const Active* a, n, data)`: `a[i].get_gradient(data[i])` in order; reads change nothing -/
+def St.getGradN (s : St) : List Nat → Except Exc (List Int)
+  | [] => .ok []
+  | i :: rest => match s.getGrad i with
+    | .error e => .error e
+    | .ok g => match s.getGradN rest with
+      | .error e => .error e
+      | .ok gs => .ok (g :: gs)
+
+/-- free function `set_values(Active* a, n, data)`: `a[i].set_value(data[i])` — the value changes, nothing is recorded -/
+def St.setValuesN (s : St) (hs : List (Nat × Int)) : St :=
+  hs.foldl (fun s p => match s.var? p.1 with
+    | some x => s.setVar p.1 { x with val := p.2 }
+    | none => s) s
+
 end Adept.StackProto
